@@ -119,7 +119,7 @@ class Scheduler:
                 return j
         return -1
 
-    def run(self, first: int, preemptions: Iterable[tuple[int, int]] = (), p_max: int = 120) -> None:
+    def run(self, first: int, preemptions: Iterable[tuple[int, int]] = (), p_max: int = 120, t_max: int = 7) -> None:
         """Run all threads to completion.
 
         ``first``: index of the thread that starts.  ``preemptions``: ``(step, thread)`` pairs;
@@ -130,7 +130,7 @@ class Scheduler:
         # Fix the schedule with O(log) symbolic decisions (binary search on each symbolic int)
         # instead of one symbolic comparison per executed statement: same set of schedules, far
         # fewer solver calls per path.
-        pre = [(self._concretize(p, 0, p_max + 1), self._concretize(t, 0, max(n - 1, 0))) for p, t in preemptions]
+        pre = [(self._concretize(p, 0, p_max + 1), self._concretize(t, 0, t_max)) for p, t in preemptions]  # threads may be spawned later: t_max bounds the target index
         STATS["runs"] += 1
         cur = self._concrete_index(first, n)
         if not self._runnable(self.threads[cur]):
@@ -182,8 +182,8 @@ class Scheduler:
             switched = False
             for p, tgt in pre:
                 if p == self.steps:
-                    j = self._concrete_index(tgt, n)
-                    if j != cur and self._runnable(self.threads[j]):
+                    j = tgt if isinstance(tgt, int) and not hasattr(tgt, "__ch_realize__") else self._concrete_index(tgt, n)
+                    if j < n and j != cur and self._runnable(self.threads[j]):
                         self.seg_ends[len(self.trace) - 1] = "preempt"
                         cur = j
                         switched = True
@@ -420,6 +420,7 @@ class CoopThread(_Joinable):
         self._started = True
         s = sched()
         t = _Thread(len(s.threads), self._body(), self.name)
+        t.owner = self  # type: ignore[attr-defined]
         s.threads.append(t)
         self.t = t
 
@@ -504,6 +505,20 @@ def harness_point(tag: int = 0) -> int:
 HP = ("pt", harness_point.__code__.co_filename, harness_point.__code__.co_firstlineno + 4)
 
 
+class _MainThread:
+    name = "MainThread"
+    daemon = False
+
+
+_MAIN_THREAD = _MainThread()
+
+
+def _current_thread() -> Any:
+    s = sched()
+    t = s.threads[s.current]
+    return getattr(t, "owner", _MAIN_THREAD)
+
+
 class _ThreadingShim(types.ModuleType):
     def __init__(self) -> None:
         super().__init__("threading")
@@ -516,7 +531,7 @@ class _ThreadingShim(types.ModuleType):
         self.Timer = CoopTimer
         self.local = _real_threading.local
         self.get_ident = lambda: sched().current
-        self.current_thread = lambda: types.SimpleNamespace(name=f"t{sched().current}", ident=sched().current)
+        self.current_thread = _current_thread
 
     def __getattr__(self, name: str) -> Any:
         raise HarnessModelError(f"threading.{name} is not modelled by the cooperative shim")
